@@ -252,6 +252,8 @@ def construct_models_in_parallel(sample, chr_id, dump_filename, args, read_group
 
     transcript_stat_counter = EnumStats()
     io_support = IOSupport(args)
+    # known isoforms are reported once per chromosome, forget what was reported for other chromosomes / experiments
+    GraphBasedModelConstructor.detected_known_isoforms = set()
     transcript_id_distributor = ExcludingIdDistributor(gffutils_db, chr_id)
     exon_id_storage = FeatureIdStorage(SimpleIDDistributor(), gffutils_db, chr_id, "exon")
 
